@@ -10,8 +10,8 @@
 //! 2 = harness error.
 
 mod exec;
-mod faultalloc;
 mod trace;
+use simcore::faultalloc;
 
 #[cfg(not(miri))]
 #[global_allocator]
